@@ -243,6 +243,32 @@ func (c *vc09Chan) cutAbove(to uint64, history bool) {
 
 // ---------------------------------------------------------------- expectation
 
+// frontierText is what LoadDurableFrontier must report for this channel: it loads with the
+// exact tail proof, or fails closed.
+func (c *vc09Chan) frontierText() string {
+	switch {
+	case c.HasCkpt && c.HW > c.LEO:
+		return "corrupt"
+	case c.LEO == 0:
+		return fmt.Sprintf("ok leo=0 committed=%d", c.HW)
+	}
+	if p, id, ok := c.exactTail(); ok {
+		return fmt.Sprintf("ok leo=%d committed=%d %s tail[%s]", c.LEO, c.HW, vc09ManifestLine(p), vc09IdentLine(id))
+	}
+	return "corrupt"
+}
+
+// vc09FrontierText renders a real LoadDurableFrontier result in the same format.
+func vc09FrontierText(fr DurableFrontier, err error) string {
+	switch {
+	case err != nil:
+		return vc09ErrClass(err)
+	case fr.LEO == 0:
+		return fmt.Sprintf("ok leo=0 committed=%d", fr.Committed)
+	}
+	return fmt.Sprintf("ok leo=%d committed=%d %s tail[%s]", fr.LEO, fr.Committed, vc09ManifestLine(fr.Manifest), vc09IdentLine(fr.TailIdentity))
+}
+
 func vc09Hex(b []byte) string { return fmt.Sprintf("%x", b) }
 
 func vc09ManifestLine(p DurableProposalManifest) string {
@@ -285,19 +311,7 @@ func (m *vc09Model) expect(ci int, q vc09Queries) []string {
 		hist = append(hist, fmt.Sprintf("%d@%d", p.Epoch, p.StartOffset))
 	}
 	add("hist=[%s]", strings.Join(hist, " "))
-	// durable frontier: loads with the exact tail proof, or fails closed
-	switch {
-	case c.HasCkpt && c.HW > c.LEO:
-		add("frontier=corrupt")
-	case c.LEO == 0:
-		add("frontier=ok leo=0 committed=%d", c.HW)
-	default:
-		if p, id, ok := c.exactTail(); ok {
-			add("frontier=ok leo=%d committed=%d %s tail[%s]", c.LEO, c.HW, vc09ManifestLine(p), vc09IdentLine(id))
-		} else {
-			add("frontier=corrupt")
-		}
-	}
+	add("frontier=%s", c.frontierText())
 	for i := uint64(1); i <= q.MaxSeq+1; i++ {
 		if id, ok := c.Idents[i]; ok {
 			add("ident[%d]=%s", i, vc09IdentLine(id))
@@ -455,14 +469,7 @@ func vc09Observe(s *vc09Store, ci int, q vc09Queries) ([]string, vc09Facts) {
 	}
 	fr, err := st.LoadDurableFrontier(ctx)
 	f.Frontier, f.FrontierErr = fr, err
-	switch {
-	case err != nil:
-		add("frontier=%s", vc09ErrClass(err))
-	case fr.LEO == 0:
-		add("frontier=ok leo=0 committed=%d", fr.Committed)
-	default:
-		add("frontier=ok leo=%d committed=%d %s tail[%s]", fr.LEO, fr.Committed, vc09ManifestLine(fr.Manifest), vc09IdentLine(fr.TailIdentity))
-	}
+	add("frontier=%s", vc09FrontierText(fr, err))
 	key := ChannelKey(vc09Keys[ci])
 	raw := s.eng.engine
 	for i := uint64(1); i <= q.MaxSeq+1; i++ {
